@@ -47,8 +47,11 @@ def run(chk):
 
     from . import e10
     e10.run_U(chk, ("yastn.tensor", "yastn.initialize"), floor1=5, floor2=1)
+    e6.run_G78(chk, ("yastn.tensor", "yastn.initialize"))
 
 MUTANTS = [
+    ('diag: zero-charge guard sums the components', 'yastn/tensor/_single.py', '        if any(x != 0 for x in a.struct.n):', '        if sum(a.struct.n) != 0:', 'G7'),
+    ('_meta_eigh negates charges without the group reduction', 'yastn/tensor/linalg.py', '    else: # and sU == struct.s[0]\n        t_con = np.array(struct.t, dtype=np.int64).reshape((len(struct.t), 2, nsym))\n        t_con = tuple(map(tuple, config.sym.fuse(t_con[:, :1, :], (1,), -1).tolist()))', '    else: # and sU == struct.s[0]\n        t_con = tuple(tuple(-c for c in x[:nsym]) for x in struct.t)', 'G8'),
     ('in-place consumption without hfs', 'yastn/tensor/_initialize.py', '        a.struct, a.slices, a.hfs, a._data, a._trans = c.struct, c.slices, c.hfs, c._data, c._trans', '        a.struct, a.slices, a._data, a._trans = c.struct, c.slices, c._data, c._trans', 'I7'),
     ('narrowed block list keeps the old size', 'yastn/tensor/_single.py', '    struct = a.struct._replace(t=c_t, D=c_D, size=size)', '    struct = a.struct._replace(t=c_t, D=c_D)', 'S7'),
     ('remove_leg ignores the signature', 'yastn/tensor/_single.py', '        newn = a.config.sym.add_charges(a.struct.n, t, signatures=(-1, a.struct.s[haxis]), new_signature=-1)', '        newn = a.config.sym.add_charges(a.struct.n, t)', 'S2'),
